@@ -10,6 +10,64 @@ pub enum Xform {
     Ifft,
 }
 
+/// Fills blocks with seeded content of one of several VALUE STRUCTURES (chosen by the seed): uniformly random
+/// bytes (half of the seeds), bytes restricted by a mask (7-bit, nibbles, single bits), a tiny alphabet,
+/// whole blocks zero, or the 32 low / 32 high bytes of every block zero (symbols >= 256 never / always).
+/// Data-dependent shortcuts in kernels (zero tests, skips) only show on structured content.
+pub fn fill_structured(blocks: &mut [[u8; 64]], seed: u64) -> &'static str {
+    let mut rng = crate::gen::Xs::new(seed ^ 0xF111);
+    for blk in blocks.iter_mut() {
+        rng.fill(blk);
+    }
+    match (seed >> 40) % 10 {
+        0..=4 => "random",
+        5 | 6 => {
+            const MASKS: [u8; 10] = [0x7F, 0x7F, 0x0F, 0xF0, 0x01, 0x80, 0x55, 0xFE, 0x3F, 0x03];
+            let m = MASKS[(seed >> 48) as usize % MASKS.len()];
+            for blk in blocks.iter_mut() {
+                for x in blk.iter_mut() {
+                    *x &= m;
+                }
+            }
+            "masked bytes"
+        }
+        7 => {
+            let n = 1 + (seed >> 48) as usize % 3;
+            let alpha: Vec<u8> = (0..n).map(|_| rng.next() as u8).collect();
+            for blk in blocks.iter_mut() {
+                for x in blk.iter_mut() {
+                    *x = alpha[rng.below(n)];
+                }
+            }
+            "tiny alphabet"
+        }
+        8 => {
+            for blk in blocks.iter_mut() {
+                if rng.below(2) == 0 {
+                    *blk = [0u8; 64];
+                }
+            }
+            "zero blocks"
+        }
+        _ => {
+            let which = (seed >> 48) % 3;
+            for (i, blk) in blocks.iter_mut().enumerate() {
+                let low_only = match which {
+                    0 => true,
+                    1 => false,
+                    _ => i % 2 == 0,
+                };
+                if low_only {
+                    blk[32..].fill(0);
+                } else {
+                    blk[..32].fill(0);
+                }
+            }
+            "half blocks zero"
+        }
+    }
+}
+
 /// Buffer of `n` shards of `blocks` 64-byte blocks plus `extra` trailing blocks outside the ShardsRefMut.
 #[derive(Clone, PartialEq, Eq)]
 pub struct Buf {
